@@ -2,7 +2,7 @@
 from ..propbase import deductive, lines_universe, gen_universe, STD_TRUST
 from ..report import Report
 
-FUNCS = ["markdown_it.rules_block.hr.hr", "markdown_it.rules_block.heading.heading", "markdown_it.rules_block.lheading.lheading", "markdown_it.rules_block.fence.fence", "markdown_it.rules_block.code.code", "markdown_it.rules_block.html_block.html_block",
+FUNCS = ["markdown_it.rules_block.state_block.StateBlock.getLines", "markdown_it.rules_block.hr.hr", "markdown_it.rules_block.heading.heading", "markdown_it.rules_block.lheading.lheading", "markdown_it.rules_block.fence.fence", "markdown_it.rules_block.code.code", "markdown_it.rules_block.html_block.html_block",
          "markdown_it.rules_block.list.skipOrderedListMarker", "markdown_it.rules_block.list.skipBulletListMarker"]
 
 
@@ -17,7 +17,7 @@ def run(tier, seed):
     deductive(rep, "C08", ["markdown_it.rules_inline.backticks.backtick"], "contracts.inline2")
     rep.explanation = ("Mixed. Deductive: markup == the scanned marker run with its count (hr, heading, fence, lheading), info == src slice, content == getLines of exactly the token's "
                        "lines with the right indent (fence, code, html_block). list_block: an item's info is the slice from the item's own line start to its marker (GUARD at the store), markup is the marker character; the marker scanners return positions "
-                       "after ASCII digits + delimiter / a bullet character. Bounded: getLines' own contract (suffix-of-source-line), list/blockquote markup. The code span rule (backticks.backtick) is verified for every source string: markup is the opening backtick string, the closing string has the same length, and the content is exactly the text between them with line endings as spaces and one padding space removed from each side iff both are present and some character is not U+0020/LF (str.replace, startswith/endswith, strip(' ') and str.index are modelled exactly for one-character arguments; the no-argument strip() is modelled with this interpreter's whitespace table, so a change to it is refuted).")
+                       "after ASCII digits + delimiter / a bullet character. getLines itself: every piece it stores for a line is the source text from a position inside that line's indentation / container prefix to the line end (with its LF), preceded only by the at most 3 blanks that stand for the unconsumed columns of a partially consumed tab (GUARDs at the two stores; callers prove indent >= 0, without which blanks would be invented); the final ''.join is the built-in's. Bounded: the whole-content oracle, list/blockquote markup. The code span rule (backticks.backtick) is verified for every source string: markup is the opening backtick string, the closing string has the same length, and the content is exactly the text between them with line endings as spaces and one padding space removed from each side iff both are present and some character is not U+0020/LF (str.replace, startswith/endswith, strip(' ') and str.index are modelled exactly for one-character arguments; the no-argument strip() is modelled with this interpreter's whitespace table, so a change to it is refuted).")
     rep.trusted_base += STD_TRUST
     rep.assumptions += ["StateBlock.getLines: safety proved; the content of its result is summarised by an uninterpreted string function (its effect is monitored by the bounded content oracle)",
                         "str.index / str.replace / str.strip / startswith / endswith: modelled from their documented semantics for one-character arguments (trusted model of the built-ins)"]
